@@ -59,6 +59,10 @@ def journal_parts(ctx):
             a = P.self_attr(n.target, add.self_name)
             if a:
                 offset_attr = a
+        elif isinstance(n, ast.Assign) and isinstance(n.value, ast.BinOp) and isinstance(n.value.op, ast.Add):
+            a = P.self_attr(n.targets[0], add.self_name)
+            if a and any(P.self_attr(x, add.self_name) == a for x in (n.value.left, n.value.right)):
+                offset_attr = a
     parts = {'fj': fj, 'file_attr': file_attr, 'rf': rf, 'publish': publish, 'publish_const': publish_const, 'mirror': mirror, 'offset_attr': offset_attr}
     P.__dict__['_journal_parts'] = parts
     return parts
@@ -107,11 +111,20 @@ def r_write_then_publish(ctx):
         problems.append('the record is written at `%s`, not at the running end offset' % unparse(w.args[0]))
     data = w.args[1] if len(w.args) >= 2 else None
     augs = [n for n in ast.walk(add.node) if isinstance(n, ast.AugAssign) and P.self_attr(n.target, add.self_name) == off]
+    for n in ast.walk(add.node):
+        # O = O + len(data) is the same advance
+        if isinstance(n, ast.Assign) and P.self_attr(n.targets[0], add.self_name) == off and isinstance(n.value, ast.BinOp) and isinstance(n.value.op, ast.Add):
+            for a_, b_ in ((n.value.left, n.value.right), (n.value.right, n.value.left)):
+                if P.self_attr(a_, add.self_name) == off:
+                    n2 = ast.AugAssign(target=n.targets[0], op=ast.Add(), value=b_)
+                    ast.copy_location(n2, n)
+                    n2._orig = n
+                    augs.append(n2)
     if len(augs) != 1 or not isinstance(augs[0].op, ast.Add) or not (isinstance(augs[0].value, ast.Call) and isinstance(augs[0].value.func, ast.Name)
                                                                      and augs[0].value.func.id == 'len' and data is not None and unparse(augs[0].value.args[0]) == unparse(data)):
         problems.append('the end offset is not advanced by exactly len(<written bytes>)')
     else:
-        an = U.node_containing(cfg, augs[0]).id
+        an = U.node_containing(cfg, getattr(augs[0], '_orig', augs[0])).id
         if an in cfg.reachable_from(cfg.entry.id, avoid=wn):
             problems.append('the end offset is advanced before the record is written at it')
         if any(p in cfg.reachable_from(cfg.entry.id, avoid=[an]) for p in pn):
